@@ -21,7 +21,7 @@ WATCHDOG = 20
 
 
 # ---------------------------------------------------------------------- helpers
-def cfg(seq, maxgen, maxenv, maxfail, blocking, invariants, view=True, safewatch=None):
+def cfg(seq, maxgen, maxenv, maxfail, blocking, invariants, view=True, safewatch=None, watch=False):
     if safewatch is None:
         safewatch = not blocking        # pinned tree: blocking send + unsafe close; repaired: neither
     n = {2: ("Seq2", "Set2"), 3: ("Seq3", "Set3"), 4: ("Seq4", "Set4")}[seq]
@@ -29,7 +29,9 @@ def cfg(seq, maxgen, maxenv, maxfail, blocking, invariants, view=True, safewatch
          "  MaxGen = %d" % maxgen, "  MaxEnv = %d" % maxenv, "  MaxFail = %d" % maxfail,
          "  Blocking = %s" % ("TRUE" if blocking else "FALSE"),
          "  SafeWatch = %s" % ("TRUE" if safewatch else "FALSE"), "  Nobody = Nobody"]
-    if view:
+    if watch:       # directed: only the configuration watch talks to the collector; every history is kept
+        t.append("  EnvNext <- WatchEnvNext")
+    elif view:
         t.append("VIEW view")
     else:       # random simulation: bias the choice of actions (see CollectorGen.tla)
         t += ["  EnvGate <- SimEnvGate", "  FailGate <- SimFailGate", "  TimeoutGate <- SimTimeoutGate"]
@@ -77,9 +79,9 @@ def project(beh, comps, salt=0):
     return sc
 
 
-def generate(c, label, seq, maxgen, maxenv, maxfail, blocking, simulate=None, depth=None, timeout=600):
+def generate(c, label, seq, maxgen, maxenv, maxfail, blocking, simulate=None, depth=None, timeout=600, watch=False):
     r = c.tlc("Collector", "CollectorGen", cfg_text=cfg(seq, maxgen, maxenv, maxfail, blocking, ["Emit"],
-                                                        view=simulate is None),
+                                                        view=simulate is None, watch=watch),
               workers=1, timeout=timeout, label=label, count=False, simulate=simulate, depth=depth,
               seed=c.seed if simulate else None, heap="6g")
     if r.timed_out or (r.error and not simulate):
@@ -299,6 +301,23 @@ def burst_family(pool, per_class, replicas):
     return out, sorted(by)
 
 
+def watch_only(sc):
+    kinds = {i["k"] for st in sc["steps"] for i in st["ev"]}
+    return "change_err" in kinds and kinds <= {"change", "change_err", "sighup"}
+
+
+def queued_then_err(sc):
+    flat = [(st["at"].split(":")[0], i["k"]) for st in sc["steps"] for i in st["ev"]]
+    for a in range(len(flat)):
+        if flat[a][1] in ("change", "sighup"):
+            for b in range(a + 1, len(flat)):
+                if flat[b][0] in ("idle", "pre", "post"):
+                    break
+                if flat[b][1] == "change_err" and flat[a][0] not in ("idle", "pre", "post"):
+                    return True
+    return False
+
+
 def shape(sc, is_counterexample):
     kinds = sorted({i["k"] for st in sc["steps"] for i in st["ev"]})
     anchors = sorted({st["at"].split(":")[0] + (":g2+" if st["at"].count(":") and st["at"].split(":")[1] not in ("1",) else "")
@@ -409,7 +428,29 @@ def run(c):
             c.extra["script_shapes"] = len(order)
         bursts, classes = burst_family(pool, 3, 12 if q else 60)
         scripts += bursts
-        c.extra["shutdown_burst_scripts"] = dict(scripts=len(bursts), classes=classes)
+        # watch errors as the ONLY stop reason (nothing else can end the run and mask a lost error): a directed
+        # generator run in which only the configuration watch talks to the collector, every history kept
+        # (no VIEW): every placement of <= 2 (thorough: 3) notifications / SIGHUPs in the run loop
+        wb = generate(c, "genW", 2, 3, 2 if q else 3, 0, False, watch=True, timeout=900)
+        have = {sc["id"] for sc in scripts}
+        cands = {}
+        for b in wb:
+            sc = project(b, COMPS[2], salt=c.seed)
+            if sc["id"] not in have and watch_only(sc):
+                cands[sc["id"]] = sc
+        cands = sorted(cands.values(), key=weight)
+        # ... first those in which the error is raised while an earlier notification cannot have been consumed yet
+        # (both made while the run loop is busy bringing a configuration up or down)
+        queued = [sc for sc in cands if queued_then_err(sc)]
+        rest = [sc for sc in cands if not queued_then_err(sc)]
+        c.rng.shuffle(queued)
+        c.rng.shuffle(rest)
+        watch = queued[:300 if q else 6000] + rest[:200 if q else 4000]
+        scripts += watch
+        c.extra["watch_only_scripts"] = dict(generated=len(cands), run=len(watch),
+                                             error_behind_pending_notification=len(queued[:300 if q else 6000]))
+        c.log("watch-only scripts: %d generated, %d run (%d with the error behind a pending notification)"
+              % (len(cands), len(watch), len(queued[:300 if q else 6000])))
         c.rng.shuffle(scripts)
         c.extra["scripts"] = len(scripts)
         c.extra["scripts_from_model_counterexamples"] = len([s for s in scripts if s["id"] in counter])
@@ -446,21 +487,23 @@ def run(c):
     # re-confirm watchdog expiries once (alone, full bound) before reporting
     # (the smallest script of every distinct blocked call site, in a fresh driver process, so that the
     # full bound applies again)
-    redo = {}
+    redo = {}           # signature -> the (up to 4) smallest scripts that showed it
     for t, v in bad.items():
         if any(cl == "RunReturns" for cl, _ in v):
             sg = signature_of("RunReturns", by_id[t][1])
-            if sg not in redo or weight(by_id[t][0]) < weight(redo[sg]):
-                redo[sg] = by_id[t][0]
-    confirmed = {}      # signature -> reproduced
+            redo.setdefault(sg, []).append(by_id[t][0])
+    for sg in redo:
+        redo[sg] = sorted(redo[sg], key=weight)[:4]
+    confirmed = {}      # signature -> reproduced (by at least one of its scripts)
     if redo and not c.replay:
-        sample = list(redo.values())[:8]
-        res2 = run_scripts(c, binp, sample, "confirm", len(sample))
+        sample = [sc for sg in sorted(redo, key=str)[:8] for sc in redo[sg]]
+        res2 = run_scripts(c, binp, sample, "confirm", min(len(sample), 16))
         bad2 = monitor(c, res2, "mon2")
         for sc, tr in res2:
-            sg = [k for k, v in redo.items() if v["id"] == sc["id"]][0]
-            confirmed[sg] = any(cl == "RunReturns" for cl, _ in bad2.get(sc["id"], []))
-            c.log("re-run of %s: %s" % (describe(sc), "watchdog expired again" if confirmed[sg] else "Run returned"))
+            again = any(cl == "RunReturns" for cl, _ in bad2.get(sc["id"], []))
+            for sg in [k for k, v in redo.items() if any(x["id"] == sc["id"] for x in v)]:
+                confirmed[sg] = confirmed.get(sg, False) or again
+            c.log("re-run of %s: %s" % (describe(sc), "watchdog expired again" if again else "Run returned"))
     reported = 0
     per_sig = {}
     for tid, v in sorted(bad.items(), key=lambda kv: weight(by_id[kv[0]][0])):   # pinned, small scripts first
